@@ -1,0 +1,27 @@
+//go:build verif
+
+// Contracts for package usermanager, checked by /verif/govc. Comment-only.
+// The bbolt database is an assumed ghost map (bucket name -> key -> bytes), see /verif/govc/models_bolt.go:
+// dbHas(b), dbKey(b,k), dbLen(b,k), dbByte(b,k,i) read it.
+package usermanager
+
+//@ ghost func bkt(UID []byte) string { return strOfBytes(UID) }
+//@ ghost func dbU64(b string, k string) int {
+//@     return (int(dbByte(b,k,0))*72057594037927936 + int(dbByte(b,k,1))*281474976710656 + int(dbByte(b,k,2))*1099511627776 + int(dbByte(b,k,3))*4294967296 + int(dbByte(b,k,4))*16777216 + int(dbByte(b,k,5))*65536 + int(dbByte(b,k,6))*256 + int(dbByte(b,k,7)))
+//@ }
+//@ ghost func dbI64(b string, k string) int { return signed64(dbU64(b, k)) }
+//@ ghost func dbU32(b string, k string) int { return int(dbByte(b,k,0))*16777216 + int(dbByte(b,k,1))*65536 + int(dbByte(b,k,2))*256 + int(dbByte(b,k,3)) }
+// a user record every reader can decode: all six fields present with their full width
+//@ ghost func wfUser(b string) bool {
+//@     return dbKey(b, "SessionsCap") && dbLen(b, "SessionsCap") >= 4 && dbKey(b, "UpRate") && dbLen(b, "UpRate") >= 8 && dbKey(b, "DownRate") && dbLen(b, "DownRate") >= 8 && dbKey(b, "UpCredit") && dbLen(b, "UpCredit") >= 8 && dbKey(b, "DownCredit") && dbLen(b, "DownCredit") >= 8 && dbKey(b, "ExpiryTime") && dbLen(b, "ExpiryTime") >= 8
+//@ }
+//@ ghost func dbWF() bool { return forall b string :: dbHas(b) ==> wfUser(b) }
+
+// AuthenticateUser (C07/C15): nil error only for an existing user with positive credit in both
+// directions whose expiry has not passed.
+//@ func (*localManager).AuthenticateUser
+//@   requires manager != nil && manager.db != nil && dbWF()
+//@   ensures exists: ret2 == nil ==> dbHas(bkt(UID))
+//@   ensures credit: ret2 == nil ==> dbI64(bkt(UID), "UpCredit") > 0 && dbI64(bkt(UID), "DownCredit") > 0
+//@   ensures notExpired: ret2 == nil ==> dbI64(bkt(UID), "ExpiryTime") * 1000000000 >= old(clock()) - 999999999
+//@   ensures rates: ret2 == nil ==> int(ret0) == dbI64(bkt(UID), "UpRate") && int(ret1) == dbI64(bkt(UID), "DownRate")
